@@ -257,8 +257,8 @@ def replay(path):
     prop = info["property"]
     work = vlib.Work(prop, "replay")
     try:
-        module = info.get("module", "TraceBoard")
-        r = vlib.validate_trace(work, module, [prop], info["trace"])
+        module = info.get("module") or "TraceBoard"
+        r = vlib.validate_trace(work, module, [prop], info["trace"], extra_constants=info.get("constants"))
         for lineno, names in r.fails:
             print("FAIL line %d: %s" % (lineno, ", ".join(names)))
         print("replayed %s: %d failing events" % (info["trace"], len(r.fails)))
